@@ -40,6 +40,39 @@ def evaluate(case, obs):
             hi = nv[0][0] if nv else max(obs.final[k]["end"], pos[k])
             if not (pos[k] <= p <= hi):
                 out.fail("position_bounds", "final_position", {"tp": k, "position": p, "model_pos": pos[k], "hi": hi})
+    # ---- lost wake-up: a getone() that was already waiting when a fetch reply with the next record of an
+    #      unpaused, requested partition was delivered must return it; giving up >= 100 ms later and the next call
+    #      finding the record at once means the waiter was never woken (with `async for` it would hang for good)
+    served_at = {}          # (tp, offset of first record served) -> delivery times of non-empty replies
+    for a in c.arrivals:
+        if a.key == 1 and a.delivered and a.t_end is not None and a.reply:
+            for (t, p, off, bases) in a.extra.get("served", []):
+                if bases:
+                    served_at.setdefault("%s:%d" % (t, p), []).append((a.t_end, off))
+    evs = [ev for ev in obs.events if ev["op"] == "getone" and "error" not in ev]
+    by_task = {}
+    for ev in evs:
+        by_task.setdefault(ev.get("task"), []).append(ev)
+    for task, lst in by_task.items():
+        for prev, cur in zip(lst, lst[1:]):
+            if prev.get("records") or not cur.get("records"):
+                continue
+            if cur["t"] - cur["t_call"] > 1e-4 or (prev.get("filter") or []) != (cur.get("filter") or []):
+                continue
+            r = cur["records"][0]
+            early = [t_end for (t_end, off) in served_at.get(r["tp"], []) if off <= r["offset"] and
+                     prev["t_call"] + 1e-6 < t_end < prev["t"] - 0.1]
+            # (events are appended when an operation completes: anything between the two calls in that order)
+            i0, i1 = obs.events.index(prev), obs.events.index(cur)
+            moved = any(e["op"] in ("seek", "pause", "resume", "seek_position") and
+                        e.get("t", e.get("t_call", 0.0)) > prev["t_call"] + 1e-9 for e in obs.events[min(i0, i1):max(i0, i1)]) or \
+                any(e["op"] in ("seek", "pause", "resume", "seek_position") and prev["t_call"] + 1e-9 < e.get("t", e.get("t_call", 0.0)) <= cur["t"]
+                    for e in obs.events)
+            if early and not moved:
+                out.fail("drains", "getone_not_woken_by_delivered_records",
+                         {"tp": r["tp"], "offset": r["offset"], "reply_delivered_at": early[-1], "getone_waited_until": prev["t"],
+                          "next_getone_returned_at": cur["t"], "task": task})
+                break
     if obs.stop_error:
         out.label("stop_raised_" + obs.stop_error.split("(")[0])     # C19's subject
     errs = [ev for ev in obs.events if ev.get("error")]
@@ -75,7 +108,7 @@ def evaluate(case, obs):
         for a in oor:
             bad = {"%s:%d" % (t["topic"], p["partition"]) for t in a.reply["topics"] for p in t["partitions"] if p.get("error") == 1}
             if any(ev["op"] == "seek" and ev.get("tp") in bad and a.t_written is not None and a.t_end is not None and
-                   a.t_written <= ev.get("t", ev["t_call"]) <= a.t_end for ev in obs.events):
+                   a.t_written <= ev.get("t", ev.get("t_call", 0.0)) <= a.t_end for ev in obs.events):
                 out.label("seek_while_out_of_range_fetch_in_flight")
     fmts = {b["fmt"] for lg in case["logs"] for b in lg["batches"] if "fmt" in b}
     for f in fmts:
@@ -253,9 +286,41 @@ def stale_error_cases(shard, nshards, stride=1):
                            "drain": "getmany"}
 
 
+def simultaneous_reply_cases(shard, nshards):
+    """Two partitions led by two brokers that answer at the same instant (equal latencies, fetch_max_wait_ms=0 so an
+    empty log is answered at once): one reply carries records, the other none, while a getone() with a long timeout
+    is already waiting.  The waiter must be woken by the reply that has the records."""
+    i = 0
+    data = [{"fmt": "v2", "kind": "data", "n": 2, "codec": 0, "pad": 0, "ts": [5]} for _ in range(2)]
+    for nodes in (2, 3):
+        for with_data in (0, 1):
+            for lat in (0.001, 0.003):
+                for filt in ([], [0, 1]):
+                    i += 1
+                    if i % nshards != shard:
+                        continue
+                    logs = [{"topic": "t0", "nparts": 2, "partition": q, "log_start": 0,
+                             "batches": list(data) if q == with_data else [], "hw_lag": 0} for q in (0, 1)]
+                    yield {"cfg": {"mode": "assign", "max_partition_fetch_bytes": 1048576, "fetch_max_wait_ms": 0,
+                                   "check_crcs": True, "request_timeout_ms": 1000, "retry_backoff_ms": 20,
+                                   "metadata_max_age_ms": 5000, "max_poll_records": None},
+                           "cluster": {"nodes": nodes, "fetch_max": 11, "list_offsets_max": 3},
+                           # drain what is there, pause both, let new data arrive for one of them, resume both at the
+                           # same instant (their Fetch requests leave together), wait in getone()
+                           "logs": logs,
+                           "tasks": [[["getone", filt, 1.0]] * 4 + [["pause", [0, 1]], ["sleep", 0.02],
+                                                                    ["append", with_data, data[0]], ["sleep", 0.01],
+                                                                    ["resume", [0, 1]]] + [["getone", filt, 1.0]] * 3],
+                           "faults": [], "env": [],
+                           "shape_batches": [0], "shape_partial": [0], "lat": [lat], "chunks": [0], "rng_seed": 1,
+                           "drain": "getone"}
+
+
 def campaigns(tier):
     th = tier == "thorough"
-    return [Campaign("stale_error", "enum", execute=execute, setup=CS.setup, exhaustive=th,
+    return [Campaign("simultaneous_replies", "enum", execute=execute, setup=CS.setup, exhaustive=True,
+                     cases=simultaneous_reply_cases),
+            Campaign("stale_error", "enum", execute=execute, setup=CS.setup, exhaustive=th,
                      cases=(lambda s, n: stale_error_cases(s, n, 1)) if th else (lambda s, n: stale_error_cases(s, n, 1))),
             Campaign("fetch_sim", "hyp", execute=execute, strategy=strategy,
                      examples=30000 if th else 6000, setup=CS.setup, max_wall=900 if th else 100, shrink_wall=40)]
